@@ -371,6 +371,7 @@ class SymInputs:
     def __init__(self, ex: "Explorer"):
         self.ex = ex
         self.vars: Dict[str, Any] = {}
+        self.fixed: Dict[str, int] = {}
 
     def int(self, name: str, lo: Optional[int] = None, hi: Optional[int] = None) -> SymInt:
         assert name not in self.vars, f"duplicate input {name}"
@@ -389,8 +390,10 @@ class SymInputs:
         """concrete value in range(n), explored exhaustively by forking"""
         if n == 1:
             return 0
-        s = self.int(name, 0, n - 1)
-        return self.ex.concretize(s, n)
+        assert name not in self.vars and name not in self.fixed, f"duplicate input {name}"
+        k = self.ex.enum(n)
+        self.fixed[name] = k            # recorded so that the counterexample / replay carries the choice
+        return k
 
     def pick(self, name: str, options: Sequence):
         return options[self.choice(name, len(options))]
@@ -399,7 +402,7 @@ class SymInputs:
         return bool(self.choice(name, 2))
 
     def values_from_model(self, model) -> Dict[str, int]:
-        out = {}
+        out = dict(self.fixed)
         for k, v in self.vars.items():
             val = model.eval(v, model_completion=True)
             if z3.is_int_value(val):
@@ -486,10 +489,17 @@ class Cex:
 
 
 class Explorer:
+    """Depth-first exploration by re-execution.  A decision prefix entry is
+    ("b", value, cond) for a solver-decided branch or ("e", value, n) for an enumeration point."""
+
     def __init__(self, timeout_ms: int = 20000, max_paths: int = 200000, max_concretize: int = 64,
-                 max_depth: int = 4000):
+                 max_depth: int = 4000, branch_timeout_ms: int = 3000, budget_s: float = 1800.0):
         self.s = z3.Solver()
-        self.s.set("timeout", timeout_ms)
+        self.s.set("timeout", branch_timeout_ms)
+        self.timeout_ms = timeout_ms
+        self.branch_timeout_ms = branch_timeout_ms
+        self.budget_s = budget_s
+        self.t_start = time.time()
         self.stats = Stats()
         self.max_paths = max_paths
         self.max_concretize = max_concretize
@@ -501,6 +511,8 @@ class Explorer:
         self.path_conditions: List[Any] = []
         self.keep_path_conditions = False
         self.inputs: Optional[SymInputs] = None
+        self.unknown_branches = 0
+        self._model = None
 
     # --- solver access
     def check(self, *extra):
@@ -516,9 +528,23 @@ class Explorer:
             self.stats.q_unknown += 1
         return rs
 
+    def _model_says(self, e):
+        """True/False if the cached model of the path condition decides e, else None"""
+        m = self._model
+        if m is None:
+            return None
+        v = m.eval(e, model_completion=True)
+        if z3.is_true(v):
+            return True
+        if z3.is_false(v):
+            return False
+        return None
+
     def assume_expr(self, e):
         self.s.add(e)
         self._pc.append(e)
+        if self._model is not None and self._model_says(e) is not True:
+            self._model = None
 
     def assume(self, cond):
         """restrict the path to cond (a precondition). Infeasible paths are dropped silently."""
@@ -528,43 +554,78 @@ class Explorer:
             return
         e = liftb(cond)
         self.assume_expr(e)
+        if self._model is not None:
+            return
         r = self.check()
         if r == "unsat":
             raise Infeasible()
-        if r != "sat":
-            raise PathAbort("unknown on assume")
+        if r == "sat":
+            self._model = self.s.model()
+
+    def _feasible(self, cond):
+        """(can_true, model_true, can_false, model_false); unknown counts as feasible (explored; any counterexample
+        found later is a solver model and is replayed, so this cannot create false alarms)"""
+        said = self._model_says(cond)
+        out = {}
+        for side in (True, False):
+            if said is side:
+                out[side] = (True, self._model)
+                continue
+            r = self.check(cond if side else z3.Not(cond))
+            if r == "sat":
+                out[side] = (True, self.s.model())
+            elif r == "unsat":
+                out[side] = (False, None)
+            else:
+                self.unknown_branches += 1
+                out[side] = (True, None)
+        return out
 
     def decide(self, cond) -> bool:
         if self.pos >= self.max_depth:
             raise PathAbort("decision depth bound")
         if self.pos < len(self.prefix):
-            v, rec = self.prefix[self.pos]
-            if rec is not None and not rec.eq(cond):
+            kind, v, rec = self.prefix[self.pos]
+            if kind != "b" or (rec is not None and not rec.eq(cond)):
                 raise PathAbort("non-deterministic re-execution (branch condition changed)")
-            if rec is None:
-                self.prefix[self.pos] = (v, cond)
+            self.pos += 1
+            self.assume_expr(cond if v else z3.Not(cond))
+            return v
+        f = self._feasible(cond)
+        can_t, can_f = f[True][0], f[False][0]
+        if can_t and can_f:
+            v = True
+            self.open.append((len(self.prefix), ("b", False, cond)))
+            self.stats.forks += 1
+        elif can_t:
+            v = True
+        elif can_f:
+            v = False
         else:
-            rt = self.check(cond)
-            rf = self.check(z3.Not(cond))
-            if rt == "unknown" or rf == "unknown":
-                raise PathAbort("solver unknown at branch")
-            can_t, can_f = rt == "sat", rf == "sat"
-            if can_t and can_f:
-                v = True
-                self.prefix.append((True, cond))
-                self.open.append(len(self.prefix) - 1)
-                self.stats.forks += 1
-            elif can_t:
-                v = True
-                self.prefix.append((True, cond))
-            elif can_f:
-                v = False
-                self.prefix.append((False, cond))
-            else:
-                raise Infeasible()
+            raise Infeasible()
+        self.prefix.append(("b", v, cond))
         self.pos += 1
-        self.assume_expr(cond if v else z3.Not(cond))
+        self.s.add(cond if v else z3.Not(cond))
+        self._pc.append(cond if v else z3.Not(cond))
+        self._model = f[v][1]
         return v
+
+    def enum(self, n: int) -> int:
+        """enumeration point: every value in range(n) is explored (no solver involved)"""
+        if n <= 1:
+            return 0
+        if self.pos < len(self.prefix):
+            kind, v, rec = self.prefix[self.pos]
+            if kind != "e" or rec != n:
+                raise PathAbort("non-deterministic re-execution (enumeration point changed)")
+            self.pos += 1
+            return v
+        for alt in range(n - 1, 0, -1):
+            self.open.append((len(self.prefix), ("e", alt, n)))
+        self.stats.forks += n - 1
+        self.prefix.append(("e", 0, n))
+        self.pos += 1
+        return 0
 
     def concretize(self, x, max_values: int = 64) -> int:
         """fork over the feasible values of a symbolic int (at most max_values, else abort).
@@ -575,21 +636,22 @@ class Explorer:
         n = 0
         while True:
             if self.pos < len(self.prefix):
-                # replaying: follow the recorded decisions (produced by this same loop)
-                v, rec = self.prefix[self.pos]
+                kind, v, rec = self.prefix[self.pos]
                 nums = [rec.arg(i) for i in range(rec.num_args())
                         if z3.is_int_value(rec.arg(i)) or z3.is_bv_value(rec.arg(i))] \
-                    if rec is not None and z3.is_eq(rec) else []
+                    if kind == "b" and rec is not None and z3.is_eq(rec) else []
                 if not nums:
                     raise PathAbort("concretize replay without record")
                 k = x._sym_val(nums[-1])
             else:
-                r = self.check()
-                if r == "unsat":
-                    raise Infeasible()
-                if r != "sat":
-                    raise PathAbort("concretize: solver unknown")
-                k = x._sym_val(self.s.model().eval(t, model_completion=True))
+                if self._model is None:
+                    r = self.check()
+                    if r == "unsat":
+                        raise Infeasible()
+                    if r != "sat":
+                        raise PathAbort("concretize: solver unknown")
+                    self._model = self.s.model()
+                k = x._sym_val(self._model.eval(t, model_completion=True))
             if self.decide(t == x._sym_const(k)):
                 return k
             n += 1
@@ -606,12 +668,15 @@ class Explorer:
                 if self.stats.paths + self.stats.aborted >= self.max_paths:
                     self.aborts.append("path bound reached with open branches")
                     break
+                if time.time() - self.t_start > self.budget_s:
+                    self.aborts.append("time budget exceeded with open branches")
+                    break
                 prefix = todo.pop()
                 self.prefix = list(prefix)
                 self.pos = 0
                 self.open = []
                 self._pc = []
-                nfixed = len(prefix)
+                self._model = None
                 self.s.push()
                 self.inputs = SymInputs(self)
                 try:
@@ -627,30 +692,67 @@ class Explorer:
                     self.aborts.append(str(e))
                 finally:
                     self.s.pop()
-                for i in self.open:
-                    if i >= nfixed:
-                        todo.append(self.prefix[:i] + [(False, self.prefix[i][1])])
+                for i, alt in self.open:
+                    todo.append(self.prefix[:i] + [alt])
         finally:
             _Ctx.cur = prev
         return self
+
+    def _small_model_retry(self, neg):
+        """NIA / hard query came back unknown: look for a counterexample among small input values
+        (sat is sound; a failure to find one leaves the obligation undischarged = inconclusive)"""
+        for bound in (4, 64):
+            self.s.push()
+            try:
+                for v in self.inputs.vars.values():
+                    if z3.is_int(v):
+                        self.s.add(v >= -bound, v <= bound)
+                r = self.check(neg)
+                if r == "sat":
+                    return self.s.model()
+            finally:
+                self.s.pop()
+        return None
 
     def _discharge(self, obs: List[Ob]):
         if not obs:
             return
         self.stats.obligations += len(obs)
-        r = self.check(z3.Not(z3.And(*[o.expr for o in obs])))
-        if r == "unsat":
-            self.stats.discharged += len(obs)
+        self.s.set("timeout", self.timeout_ms)
+        try:
+            self._discharge2(obs)
+        finally:
+            self.s.set("timeout", self.branch_timeout_ms)
+
+    def _discharge2(self, obs: List[Ob]):
+        trivial = [o for o in obs if z3.is_true(z3.simplify(o.expr))]
+        rest = [o for o in obs if not z3.is_true(z3.simplify(o.expr))]
+        self.stats.discharged += len(trivial)
+        if not rest:
             return
-        for o in obs:
-            r = self.check(z3.Not(o.expr)) if len(obs) > 1 or r != "sat" else "sat"
-            if r == "unsat":
-                self.stats.discharged += 1
-            elif r == "sat":
+        r = self.check(z3.Not(z3.And(*[o.expr for o in rest])))
+        if r == "unsat":
+            self.stats.discharged += len(rest)
+            return
+        for o in rest:
+            neg = z3.Not(o.expr)
+            m = None
+            if len(rest) == 1 and r == "sat":
                 m = self.s.model()
+                r1 = "sat"
+            else:
+                r1 = self.check(neg)
+                if r1 == "sat":
+                    m = self.s.model()
+            if r1 == "unknown":
+                m = self._small_model_retry(neg)
+                if m is not None:
+                    r1 = "sat"
+            if r1 == "unsat":
+                self.stats.discharged += 1
+            elif r1 == "sat":
                 self.stats.cex += 1
-                self.cexs.append(Cex(o.label, o.site, self.inputs.values_from_model(m), o.info,
-                                     [bool(v) for v, _ in self.prefix]))
+                self.cexs.append(Cex(o.label, o.site, self.inputs.values_from_model(m), o.info, None))
             else:
                 self.unknowns.append(o.label)
 
